@@ -631,6 +631,10 @@ def _sig(e, params_positional=True):
         return "%s[%s]" % (_sig(e[1]), _sig(e[2]))
     if k == "unknown":
         return "?"
+    if k == "repeat":
+        return "[%s; %s]" % (_sig(e[1]), e[2])
+    if k == "variant":
+        return "(%s as %s)" % (_sig(e[1]), e[2])
     return mir.show(e)
 
 
